@@ -30,7 +30,7 @@ def run(ctx):
     out = ctx.path("crash.json")
     scratch = ctx.path("crashdbs")
     os.makedirs(scratch)
-    every = 250 if q else 12
+    every = 750 if q else 36      # lineage-aware generation (TrackLineage) emits about three times as many histories
     vh = vlib.popen_vh(["nodedb-crash", "-in", "-", "-out", out, "-every", str(every), "-scratch", scratch])
     g = vlib.run_tlc(ctx, d, "MCNodeDBCrash", "gen_crash.cfg", timeout=3000, sink=vh.stdin)
     vh.stdin.close()
